@@ -122,7 +122,8 @@ class SigCollector(Collector):
         m = self.model
         t = m.systems.timestep
         m.entry["ticks"].append([self.id, t, m.is_running()])
-        self.records.append((m.sig, self.id, t))
+        pad = CONFIG.get("pad")
+        self.records.append((m.sig, self.id, t) if not pad else (m.sig, self.id, t, "x" * pad))
 
 
 class BatchModel(Model):
